@@ -1090,6 +1090,7 @@ func (vc *VC) convert(v Val, to types.Type) (Val, error) {
 		}
 		return Val{T: to, L: []string{fmt.Sprintf("((_ to_fp_unsigned %s) RNE %s)", fs, v.L[0])}}, nil
 	case isFloat(from) && isInteger(to):
+		vc.trusted["float-to-integer conversion is SMT-LIB fp.to_sbv/fp.to_ubv with RTZ: Go's truncation for values in range; for NaN and out-of-range values the result is unspecified in the model (implementation-defined in Go)"] = true
 		w := widthOf(to)
 		if isSigned(to) {
 			return Val{T: to, L: []string{fmt.Sprintf("((_ fp.to_sbv %d) RTZ %s)", w, v.L[0])}}, nil
